@@ -49,8 +49,6 @@ Section SolverC.
           non-negative, and reaching the (un-weighted) sum of bests implies reaching the weighted one *)
        ((forall ob, In ob (lp_objectives _ p) -> (0 <= boost ob)%Q) ->
         (forall ob b t, In ob (lp_objectives _ p) -> best ob = Some b -> In t vs -> (fst (ev ob t) <= b)%Q) ->
-        (forall B Bw, sum_best spec best boost (lp_objectives _ p) false = Some B ->
-                      sum_best spec best boost (lp_objectives _ p) true = Some Bw -> (Bw <= B)%Q) ->
         forall t, In t vs -> cfeasible (lp_constraints _ p) t ->
                   (total (lp_objectives _ p) t <= total (lp_objectives _ p) (cur _ st'))%Q)).
   Proof.
